@@ -1,4 +1,4 @@
-import RawPanelVerif.Lemmas.OutDecInfo
+import RawPanelVerif.Lemmas.OutDecKind
 /-! Registers, fall-through and the assembled line theorem for `decOut_sound` / `nongrammar_silent` (C04). -/
 namespace RawPanelVerif.OutLemmas
 open RawPanelVerif RawPanelVerif.Bytes RawPanelVerif.MsgOut RawPanelVerif.EncOut RawPanelVerif.DecOut
@@ -355,7 +355,7 @@ theorem dec_line_sound (o : OutOracle) (l : Bytes) (hfmt : ∀ p t, o.fmtF p t =
     subst e
     cases c with
     | grammar effs => exact dec_event o rest effs hc
-    | nonGrammar => exact absurd hc (readEvent_not_ng rest)
+    | nonGrammar => exact (dec_unknown_kind o rest hc).2
     | outside => exact absurd rfl h
   | none =>
     try rw [h1] at hc
